@@ -1067,10 +1067,13 @@ def clause_k(c: Check):
     ae = ix.cls('exactly_lib.execution.partial_execution.impl.atc_execution:ActionToCheckExecutor')
     psfe = ix.cls(RESULT_MOD + ':PhaseStepFailureException') if 'RESULT_MOD' in globals() else \
         ix.cls('exactly_lib.execution.result:PhaseStepFailureException')
+    sv_cls = ix.cls('exactly_lib.execution.partial_execution.impl.symbol_validation:SymbolsValidator')
     n_actions = 0
-    for name, m in sorted(ae.methods.items()):
+    step_methods = sorted(ae.methods.items()) + [(k, v) for k, v in sorted(sv_cls.methods.items()) if k == '_validate_atc']
+    for name, m in step_methods:
         nested = [b[1] for bs in m.local_bindings().values() for b in bs if b[0] == 'def']
-        if not nested or not any(p_.arg == 'failure_con' for p_ in m.positional_params()):
+        if not nested or not (any(p_.arg == 'failure_con' for p_ in m.positional_params())
+                              or 'failure_con' in m.local_bindings()):
             continue
         for act in nested:
             n_actions += 1
@@ -1089,7 +1092,8 @@ def clause_k(c: Check):
                         verdicts.append('failed' if (truth != neg) else 'ok')
                     elif isinstance(t, ast.Compare) and len(t.ops) == 1 and isinstance(t.ops[0], (ast.Is, ast.IsNot)) \
                             and isinstance(t.comparators[0], ast.Constant) and t.comparators[0].value is None \
-                            and 'message' in unparse(t.left):
+                            and ('message' in unparse(t.left) or (isinstance(t.left, ast.Name) and any(
+                                b_[0] == 'assign' and isinstance(b_[1], ast.Call) for b_ in act.local_bindings().get(t.left.id, [])))):
                         is_none = truth == isinstance(t.ops[0], ast.Is)
                         verdicts.append('ok' if (is_none != neg) else 'failed')
                 if not verdicts:
@@ -1103,11 +1107,11 @@ def clause_k(c: Check):
                      'C01-k', 'atc-step-action/%s' % name,
                      'the action of %s %s when the answer is "not successful" and %s when it is successful' % (
                          name, ' / '.join(sorted(outcomes['failed'])), ' / '.join(sorted(outcomes['ok']))), act.loc())
-    c.floor('C01-k', 'step actions of the ATC executor', n_actions, 4)
+    c.floor('C01-k', 'step actions of the ATC executor and of the symbol validation of the action', n_actions, 5)
     # ... and with the KIND of failure the answer carries: where the answer of the actor has a status of its own (a
     # validation error or a hard error), the failure raised is made from that status - not from a constant
     n_kind = 0
-    for name, m in sorted(ae.methods.items()):
+    for name, m in step_methods:
         for act in [b[1] for bs in m.local_bindings().values() for b in bs if b[0] == 'def']:
             for rname, bs in act.local_bindings().items():
                 if len(bs) != 1 or bs[0][0] != 'assign' or not isinstance(bs[0][1], ast.Call):
@@ -1118,7 +1122,10 @@ def clause_k(c: Check):
                 if not (isinstance(rcls, ClassDef) and isinstance(ix.class_member(rcls, 'status'), FuncDef)):
                     continue
                 for call in ast.walk(act.node):
-                    if isinstance(call, ast.Call) and isinstance(call.func, ast.Name) and call.func.id == 'failure_con' and call.args:
+                    if isinstance(call, ast.Call) and call.args and (
+                            (isinstance(call.func, ast.Name) and call.func.id == 'failure_con') or
+                            (isinstance(call.func, ast.Attribute) and isinstance(call.func.value, ast.Name)
+                             and call.func.value.id == 'failure_con')):
                         n_kind += 1
                         a0 = call.args[0]
                         uses_status = any(isinstance(x, ast.Attribute) and x.attr == 'status' and isinstance(x.value, ast.Name)
@@ -1127,4 +1134,4 @@ def clause_k(c: Check):
                                  'the failure of %s is raised with the status `%s` although the answer of the actor (%s) '
                                  'says which kind of failure it is: a hard error is reported as another kind' % (
                                      name, unparse(a0), rcls.name), act.loc())
-    c.floor('C01-k', 'step actions whose answer carries a status', n_kind, 1)
+    c.floor('C01-k', 'step actions whose answer carries a status', n_kind, 2)
